@@ -916,7 +916,7 @@ class Cylinder(BaseConstraint):
                     and x[i] <= self.center_x + self.height / 2
                 )
         if self.loc.lower() == "in":
-            return map(operator.not_, inFlag)
+            return np.logical_not(inFlag)
         else:
             return inFlag
 
